@@ -233,11 +233,13 @@ class AdaptiveBalance(AffineBalance):
         elif mode == "affine":
             balance = AffineBalance()
         balance.find_balance(swatches_src_prebalanced, swatches_dst)
-        self.balance_scaling = balance.balance_scaling @ self.balance_scaling
+        # Compose with the previous balance: balances act on row vectors,
+        # x -> x @ A + b, hence (x @ A1 + b1) @ A2 + b2 = x @ (A1 @ A2) + (b1 @ A2 + b2).
+        self.balance_scaling = self.balance_scaling @ balance.balance_scaling
+        self.balance_translation = self.balance_translation @ balance.balance_scaling
         if mode == "affine":
             self.balance_translation = (
-                balance.balance_scaling @ self.balance_translation
-                + balance.balance_translation
+                self.balance_translation + balance.balance_translation
             )
 
 
